@@ -5,7 +5,7 @@ EXTENDS Shapes, TLC, Json, IOUtils
 CONSTANTS MCDeep, MCLong
 VARIABLES sh, M, Mi, obj, tf, dg, pn, pc, hist, viol, aux
 MCShapes == JsonDeserialize(IOEnv.VERIF_SHAPES)
-MCProps == {"C03", "C04", "C07", "C20"}
+MCProps == {"C02", "C03", "C04", "C07", "C20"}
 MCScript == <<"SetObj", "NewEmpty", "CopyTo", "FreshObj", "CopyFrom">>
 ASSUME PrintT("SHAPES " \o ToJson(MCShapes))
 INSTANCE Session WITH Shapes <- MCShapes, Script <- MCScript, Deep <- MCDeep, Props <- MCProps, ObjMode <- "all", RawMode <- "plans"
